@@ -70,7 +70,7 @@ def canon_tag(t: Any) -> str:
 
 
 UNARY = ["neg", "rev", "roll", "double", "square"]
-BINARY = ["add", "sub", "mul"]
+BINARY = ["add", "sub", "mul", "csrdiag"]
 
 
 def np_op(op: str, a: list[Any]) -> np.ndarray:
@@ -92,6 +92,11 @@ def np_op(op: str, a: list[Any]) -> np.ndarray:
         return a[0] * a[1]
     if op == "sumall":
         return a[0] * 0.0 + np.sum(a[0])
+    if op == "csrdiag":
+        # sparse anti-diagonal matrix (values (i+1)/2) times a[1]; a[0] enters the row starts
+        # only (multiplied by zero)
+        n = a[1].shape[0]
+        return (np.arange(n) + 1) * 0.5 * a[1][::-1]
     raise ValueError(op)
 
 
@@ -115,6 +120,17 @@ def pt_op(op: str, a: list[Any]) -> Any:
         return a[0] * a[1]
     if op == "sumall":
         return a[0] * 0.0 + pt.sum(a[0])
+    if op == "csrdiag":
+        # a CSR product whose row_starts depend on a[0] (a received / stored array in many
+        # programs) while values and column indices are input-free expressions
+        n = int(a[1].shape[0])
+        z = pt.less(a[0], a[0]).astype(np.int64)        # zeros that depend on a[0]
+        rs = pt.arange(n + 1, dtype=np.int64) + pt.concatenate([z, z[:1]])
+        # (other start and step: an int64 and a float64 arange with equal start or step would be
+        # conflated when inlined into one expression -- DESIGN.md 10.7)
+        vals = pt.arange(2, 2 * n + 2, 2, dtype=np.float64) * 0.25
+        cols = (n - 1) - pt.arange(n, dtype=np.int64)
+        return pt.make_csr_matrix((n, n), vals, cols, rs) @ a[1]
     raise ValueError(op)
 
 
